@@ -21,6 +21,7 @@ import (
 	"github.com/paulmach/orb/encoding/wkt"
 	"github.com/paulmach/orb/geojson"
 	"go.mongodb.org/mongo-driver/bson"
+	"go.mongodb.org/mongo-driver/bson/primitive"
 
 	"verif/internal/gen"
 	"verif/internal/h"
@@ -408,6 +409,64 @@ func c05mutateBytes(r *h.Rand, b []byte, other []byte) ([]byte, string) {
 		}
 	}
 	return b, "unchanged"
+}
+
+// c05bsonOnly replaces some leaves of a decoded JSON document by values of the BSON types JSON does not have.
+func c05bsonOnly(r *h.Rand, v interface{}) (n int) {
+	odd := func() interface{} {
+		d128, _ := primitive.ParseDecimal128([]string{"1.5", "-0", "NaN", "Infinity", "12345678901234567890.123456789", "1E+6000"}[r.Intn(6)])
+		switch r.Intn(16) {
+		case 0, 1, 2:
+			return d128
+		case 3:
+			return primitive.NewObjectID()
+		case 4:
+			return primitive.DateTime(r.Range(-1000, 1000))
+		case 5:
+			return primitive.Timestamp{T: uint32(r.Intn(9)), I: uint32(r.Intn(9))}
+		case 6:
+			return primitive.Regex{Pattern: "a.*", Options: "i"}
+		case 7:
+			return primitive.Binary{Subtype: byte(r.Intn(6)), Data: []byte{1, 2, 3}}
+		case 8:
+			return primitive.MinKey{}
+		case 9:
+			return primitive.MaxKey{}
+		case 10:
+			return primitive.Undefined{}
+		case 11:
+			return primitive.JavaScript("x=1")
+		case 12:
+			return primitive.Symbol("Point")
+		case 13:
+			return primitive.CodeWithScope{Code: "x", Scope: bson.D{{Key: "x", Value: 1}}}
+		case 14:
+			return int32(r.Range(-3, 3))
+		}
+		return int64(r.Range(-3, 3)) << uint(r.Intn(40))
+	}
+	var walk func(v interface{}) interface{}
+	walk = func(v interface{}) interface{} {
+		switch t := v.(type) {
+		case map[string]interface{}:
+			for k := range t {
+				t[k] = walk(t[k])
+			}
+			return t
+		case []interface{}:
+			for i := range t {
+				t[i] = walk(t[i])
+			}
+			return t
+		}
+		if r.P(1, 5) {
+			n++
+			return odd()
+		}
+		return v
+	}
+	walk(v)
+	return n
 }
 
 func c05mutateJSON(r *h.Rand, b []byte) ([]byte, string) {
@@ -858,6 +917,10 @@ func init() {
 								var v map[string]interface{}
 								mj, h2 := c05mutateJSON(r, jsonB)
 								if json.Unmarshal(mj, &v) == nil {
+									if r.Bool() {
+										// values of the types only BSON has, in place of numbers, strings and members
+										h2 += fmt.Sprintf(" + %d values of BSON-only types", c05bsonOnly(r, v))
+									}
 									if bb, err := bson.Marshal(v); err == nil {
 										in, hw = bb, h2+" (as bson)"
 									}
